@@ -17,7 +17,7 @@ RULE = ('generated (class model, document) pairs x meaning-preserving transforma
         'List/Sequence/MutableSequence and Dict/Mapping/MutableMapping interchanged in every annotation, '
         'bool_union_fix added to every Union containing bool; the outcome (equal value or failure) of '
         'the real load must not change.  Non-trivial = the transformed input differs from the original.'
-        'Directed families: !Unrelated tags on class mappings; Unions containing bool as item /'
+        ' Directed families: !Unrelated tags on class mappings; Unions containing bool as item /'
         ' value types of (nested, Optional) lists and dicts; documents with aliases re-rendered'
         ' with every alias written out.')
 ASSUMPTIONS = ['PyYAML\'s serializer/emitter writes a node tree so that it re-composes to the same kinds, '
